@@ -75,8 +75,8 @@ macro_rules! hist_property {
                     id: $id,
                     subs: vec![
                         SubCheck { name: "corpus", shards: |_| 1, run: run_corpus, replay: replay_hist,
-                            rule: "committed regression histories from /verif/corpus (shrunk failures of seeded mutations), replayed first" },
-                        SubCheck { name: "histories", shards: |t: Tier| t.pick(8, 16), run, replay: replay_hist, rule: $rule },
+                            rule: "committed regression histories from /verif/corpus (shrunk failures of seeded mutations), replayed first", exe_env: None },
+                        SubCheck { name: "histories", shards: |t: Tier| t.pick(8, 16), run, replay: replay_hist, rule: $rule, exe_env: None },
                     ],
                     crash_is_violation: $crash,
                     assumptions: &[
